@@ -52,6 +52,24 @@ type hello struct {
 	SNI     string
 }
 
+// nearGrease returns a value that looks like a GREASE value without being one: both low nibbles 0xA but
+// different bytes, one byte of a GREASE pair, or a neighbour of one. The specification keeps all of them.
+func nearGrease(r *core.Rng) uint16 {
+	g := greaseVals[r.Intn(16)]
+	switch r.Intn(5) {
+	case 0:
+		return g&0xff00 | greaseVals[r.Intn(16)]&0x00ff ^ 0x10 // 0x?a?a with different bytes (or equal -> fixed below)
+	case 1:
+		return g & 0xff00
+	case 2:
+		return g & 0x00ff
+	case 3:
+		return g + 1
+	default:
+		return g - 1
+	}
+}
+
 func mkHello(r *core.Rng) hello {
 	h := hello{Vers: uint16(r.PickI([]int{0x0300, 0x0301, 0x0302, 0x0303, 0x0303, 0x0303}))}
 	h.Session = r.Bytes(r.PickI([]int{0, 0, 32, 16}))
@@ -60,7 +78,11 @@ func mkHello(r *core.Rng) hello {
 		case 0:
 			h.Ciphers = append(h.Ciphers, greaseVals[r.Intn(16)])
 		case 1:
-			h.Ciphers = append(h.Ciphers, uint16(r.Intn(65536)))
+			if r.Bool() {
+				h.Ciphers = append(h.Ciphers, uint16(r.Intn(65536)))
+			} else if v := nearGrease(r); !ja3.IsGREASE(v) {
+				h.Ciphers = append(h.Ciphers, v)
+			}
 		default:
 			h.Ciphers = append(h.Ciphers, knownCiphers[r.Intn(len(knownCiphers))])
 		}
@@ -89,6 +111,10 @@ func mkHello(r *core.Rng) hello {
 				v := uint16(r.PickI([]int{23, 24, 25, 29, 30, 256, 257, 0, 65535}))
 				if r.Chance(1, 4) {
 					v = greaseVals[r.Intn(16)]
+				} else if r.Chance(1, 5) {
+					if n := nearGrease(r); !ja3.IsGREASE(n) {
+						v = n
+					}
 				}
 				c = append(c, byte(v>>8), byte(v))
 			}
@@ -133,6 +159,11 @@ func mkHello(r *core.Rng) hello {
 			e.T, e.Body = 51, append(u16(36), append([]byte{0, 29, 0, 32}, r.Bytes(32)...)...)
 		case 12, 13:
 			e.T = greaseVals[r.Intn(16)]
+			if r.Chance(1, 4) {
+				if n := nearGrease(r); !ja3.IsGREASE(n) && n > 60 {
+					e.T = n // an unknown extension type that only resembles GREASE
+				}
+			}
 			if r.Bool() {
 				e.Body = []byte{0}
 			}
